@@ -1,3 +1,4 @@
 import Cgm.Lemmas.AuditCmd
 import Cgm.Props.C08
+import Cgm.Props.C08c
 #audit_namespace Cg.C08
